@@ -67,6 +67,19 @@ example : (getSTH ⟨fun _ m => m, fun _ _ _ _ => false⟩ none ⟨200, [], some
 example : getSTH ⟨fun _ m => m, fun _ _ _ _ => false⟩ (some { kind := .ecdsa }) ⟨200, [], some ⟨1, 2, List.replicate 32 0, [4, 3, 0, 0]⟩⟩ = .rspErr 200 [] := by decide
 example : (getSTH ⟨fun _ m => m, fun _ _ _ _ => true⟩ (some { kind := .ecdsa }) ⟨200, [], some ⟨1, 2, List.replicate 32 0, [4, 3, 0, 8, 0x30, 6, 2, 1, 1, 2, 1, 1]⟩⟩).isOk = true := by decide
 
+/-- **the client keeps no verification state.**  In the model `getSTH` / `addChain` are functions of the configured key and
+the response(s) of *this* call only, so a history of calls on one client is judged call by call: every STH handed back
+anywhere in a history verifies (no "already verified" shortcut).  The real client is held to this by the harness'
+histories of 2–4 calls on ONE LogClient (same head re-served with another signature, good after bad, …). -/
+theorem getSTH_stateless (P : Prims) (key : Key) (history : List (Rsp SthBody)) (r : Rsp SthBody) (sth : STH)
+    (_hr : r ∈ history) (h : getSTH P (some key) r = .ok sth) : verifySTH P key sth = .ok :=
+  (sth_verified P key r sth h).2.2.1
+
+example := getSTH_stateless ⟨fun _ m => m, fun _ _ _ _ => true⟩ { kind := .ecdsa }
+  [⟨200, [], some ⟨1, 2, List.replicate 32 0, [4, 3, 0, 8, 0x30, 6, 2, 1, 1, 2, 1, 1]⟩⟩]
+  ⟨200, [], some ⟨1, 2, List.replicate 32 0, [4, 3, 0, 8, 0x30, 6, 2, 1, 1, 2, 1, 1]⟩⟩
+  ⟨0, 1, 2, List.replicate 32 0, ⟨4, 3, [0x30, 6, 2, 1, 1, 2, 1, 1]⟩⟩ (by simp) (by decide)
+
 /-- the part of `sct_verified` that concerns one final response -/
 theorem addChainFinal_verified (P : Prims) (key : Key) (keyID : Option Bytes) (leaf : LeafBuild) (st : Nat) (raw : Bytes) (b : SctBody)
     (sct : SCT) (h : addChainFinal P (some key) keyID leaf st raw b = .ok sct) :
